@@ -94,7 +94,9 @@ def every_opening_wakes(F, R, ver):
             ok = not bad
             if fn == 'set_cap':
                 # wake loop precedes cap.set: every path from entry to the set passes the loop head
-                ok = any(obi in b.reachable_after(w_) for w_ in wakes) or (bool(wakes) and not (set(b.returns()) & b.reachable_after(obi, avoid=wakes)))
+                # ... or follows it: then every path from the set to a return passes the wake loop's head
+                heads = {nb for nb, nt in b.calls() if (callee_name(nt) or '').endswith('::next') and any(w_ in b.reachable_after(nb) and nb in b.reachable_after(w_) for w_ in wakes)}
+                ok = any(obi in b.reachable_after(w_) for w_ in wakes) or (bool(wakes) and not (set(b.returns()) & b.reachable_after(obi, avoid=wakes | heads)))
             R.ob('C13.every-opening-wakes', '%s|%s|%s' % (b.path, what, 'all-exits-wake'), ok,
                  'this function can open the send window (%s) and return normally without waking a parked sender or clearing the waiters: senders parked in wait_readiness() stay blocked although the window is open' % what,
                  b.loc(bad[0]) if bad else b.loc(obi))
